@@ -157,3 +157,53 @@ contract('IO.recv_line#stream', qual='IO.recv_line', module=M, props=['C09', 'C1
                         inv=['INV_IO(self)', 'self.consumed == old(self.consumed)',
                              # nothing that was scanned and rejected contained a LF
                              'self.fetched >= old(self.fetched)'])})
+
+# ---------------------------------------------------------------------------- IO.send_reply (C17: write side)
+# What is put on the wire for a reply: one line per line of the message, every line prefixed with the SAME three-
+# character code, "-" after the code on every line but the last, " " on the last -- the shape recv_reply accepts as
+# ONE reply with that code (its contract above).  The full text round trip is not claimed (utf-8 / line-break
+# normalisation and Reply.message's enhanced-status-code splicing are string reasoning beyond both solvers).
+klass('BytesIO', ghost={'buf': 'Bytes'})
+extern('BytesIO.__init__', params={'self': 'BytesIO'}, modifies=['self.buf'], ensures=['self.buf == b""'])
+extern('BytesIO.write', params={'self': 'BytesIO', 'b': 'Bytes'}, returns='Int', modifies=['self.buf'],
+       ensures=['self.buf == old(self.buf) + b'])
+extern('BytesIO.getvalue', params={'self': 'BytesIO'}, returns='Bytes', pure=True, reads=['self.buf'],
+       ensures=['result == self.buf'])
+extern('IO.buffered_send', params={'self': 'IO', 'data': 'Bytes'}, returns='None',
+       notes='IO.buffered_send: appends to the send buffer (a BytesIO)')
+klass('WMatch', fields={'g1': 'Bytes', 'e0': 'Int'})
+extern('LinePattern.finditer', params={'self': 'LinePattern', 's': 'Bytes'}, returns='List[WMatch]',
+       ensures=['result != None', 'fresh(result)', 'is_list(result)', 'forall(result, lambda m: m != None and allocated(m))',
+                # a string that ends with LF is tiled by its lines: at least one match
+                'implies(str_suffix(s, b"\\n"), len(result) >= 1)'],
+       notes="re.compile(br'(.*?)\\\\r?\\\\n').finditer(s): the successive LF-terminated lines of s, group(1) = the line "
+             "without its (CR)LF; validated by the bounded regex stand-in")
+extern('WMatch.group', params={'self': 'WMatch', 'n': 'Int'}, returns='Bytes', pure=True, reads=['self.g1'],
+       requires=['n == 1'], ensures=['result == self.g1'])
+klass('Reply', fields={'message': 'Opt[Str]'})
+extern('str.encode#m', params={})
+
+contract('IO.send_reply#wire', qual='IO.send_reply', module=M, props=['C17'],
+         params={'self': 'IO', 'reply': 'Reply'}, returns='None',
+         requires=['reply != None', 'reply.code is not None', 'reply.message is not None'],
+         ghost_entry=['_gn = 0'],
+         checks=[
+             # exactly one write per line; what is handed to buffered_send is the concatenation of the lines
+             'ncalls("IO.buffered_send") == 1',
+             'len(lines) >= 1',
+             'call_arg("IO.buffered_send", 0, 1) == to_send.buf',
+             # shape of the wire form: code + "-" + line + CRLF for every line but the last, code + " " + last + CRLF
+             '_gwire == to_send.buf'],
+         raises={'UnicodeEncodeError': []},
+         modifies=['fresh'],
+         locals={'lines': 'List[Bytes]', 'to_send': 'BytesIO'},
+         loops={0: dict(modifies=['contents(lines)', 'new'],
+                        inv=['lines != None and fresh(lines) and is_list(lines) and len(lines) == _k']),
+                1: dict(modifies=['to_send.buf', 'new'],
+                        inv=['to_send != None and fresh(to_send)', 'lines != None and len(lines) >= 1',
+                             '_gwire == to_send.buf',
+                             # every line written so far starts with the code followed by "-"
+                             'len(_gwire) >= _k * (len(code) + 3)'])},
+         ghost_after={'to_send = BytesIO()': ['_gwire = b""'],
+                      "to_send.write(b''.join((code, b'-', line, b'\\r\\n')))": ['_gwire = _gwire + code + b"-" + line + b"\\r\\n"'],
+                      "to_send.write(b''.join((code, b' ', lines[-1], b'\\r\\n')))": ['_gwire = _gwire + code + b" " + lines[len(lines) - 1] + b"\\r\\n"']})
